@@ -9,6 +9,7 @@ import MpirProofs.Props.C08_limb
 import MpirProofs.Lemmas.PowmReal
 import MpirProofs.Lemmas.NextSize
 import MpirProofs.Lemmas.PowmCrtMem
+import MpirProofs.Props.C08
 import Mpir.Ops.Hgcd
 namespace Mpir.Mm1
 open Mpir Mpir.Fft
@@ -344,5 +345,40 @@ theorem mpz_powm_crt_indices_ok (mp : List Nat) (hm : Norm mp) (hne : mp ≠ [])
 example : Mpir.PowmCrt.crtOk 5 3 3 (2 * 5 + max (binvItchP 3) (2 * 5)) binvItchP = true ∧
     Mpir.PowmCrt.crtOk 5 3 3 (2 * 5 + max (binvItchP 3) (2 * 5) - 1) binvItchP = false ∧
     Mpir.PowmCrt.mpzPowmCrtOk [0, 64, 0, 256] binvItchP = true := by decide +kernel
+
+/-- **The CRT path of mpz_powm with every operand going through the single scratch block** (mpz/powm.c:204-270, model
+    `PowmCrt.powmEvenMemF`: the block as a map offset → limb; `r2 = tp`, mpn_powlo's scratch at `tp + ncnt`,
+    `odd_inv_2exp = tp + n`, mpn_binvert's scratch at `tp + 2n`, mpn_sub in place, mpn_mullow_n setting `2·ncnt` limbs at
+    `xp = tp + 2n`, the mask, mpn_mul into `yp = tp`, mpn_add reading `yp[0..n)`).  For ANY contents the callees leave in
+    their scratch areas and any initial contents of the block, the limbs delivered to `rp` are exactly those of the
+    value-level `powmEven` — no callee overwrites an operand that is still needed — hence (`even_modulus_crt`) they are
+    `b^e mod 2^t·modd` in `n` proper limbs.  Hypotheses: those of `even_modulus_crt` (what `stripM` delivers, the C's
+    ASSERTs at powm.c:272-273) and `ncnt ≤ n`. -/
+theorem mpz_powm_crt_mem_correct (n : Nat) (bp ep modd rodd : List Nat) (nodd ncnt cnt bi : Nat)
+    (junkP junkB : List Nat) (mem0 : Mpir.PowmCrt.Mem)
+    (hbp : Limbs bp) (hbne : bp ≠ []) (hep : Norm ep) (hepne : ep ≠ []) (h2 : 2 ≤ val ep)
+    (hmodd : Limbs modd) (hml : modd.length = nodd) (hodd : val modd % 2 = 1)
+    (hncnt : 1 ≤ ncnt) (hcnt : cnt < 64) (hn1 : nodd ≤ n) (hn2 : n ≤ nodd + ncnt) (hn3 : ncnt ≤ n)
+    (hfit : 2 ^ tbits ncnt cnt * val modd < B ^ n) (hsz : ncnt * 64 < B)
+    (hrodd : rodd = toLimbs nodd (val bp ^ val ep % val modd)) :
+    Mpir.PowmCrt.powmEvenMemF n bp ep modd nodd ncnt cnt rodd bi junkP junkB mem0 =
+      powmEven n bp ep modd nodd ncnt cnt rodd ∧
+    val (Mpir.PowmCrt.powmEvenMemF n bp ep modd nodd ncnt cnt rodd bi junkP junkB mem0) =
+      val bp ^ val ep % (2 ^ tbits ncnt cnt * val modd) ∧
+    Limbs (Mpir.PowmCrt.powmEvenMemF n bp ep modd nodd ncnt cnt rodd bi junkP junkB mem0) ∧
+    (Mpir.PowmCrt.powmEvenMemF n bp ep modd nodd ncnt cnt rodd bi junkP junkB mem0).length = n := by
+  have hrL : Limbs rodd := by rw [hrodd]; exact (toLimbs_spec _ _).2.2
+  have e := Mpir.PowmCrt.powmEvenMemF_eq n bp ep modd nodd ncnt cnt rodd bi junkP junkB mem0 hrL hncnt hn3
+    (by omega) (by omega) hcnt
+  obtain ⟨c1, c2, c3⟩ := even_modulus_crt n bp ep modd rodd nodd ncnt cnt hbp hbne hep hepne h2 hmodd hml hodd hncnt hcnt
+    hn1 hn2 hfit hsz hrodd
+  rw [e]; exact ⟨rfl, c1, c2, c3⟩
+
+-- non-vacuity: m = 12 = 2^2·3 (n = 1, ncnt = 1, cnt = 2), b = 5, e = 3, and m = 2^64·3 (whole zero limb), b = 7, e = 2 —
+-- with junk in the scratch areas and a block full of ones
+example : Mpir.PowmCrt.powmEvenMemF 1 [5] [3] [3] 1 1 2 (toLimbs 1 (5 ^ 3 % 3)) 226 [7, 7, 7] [9, 9, 9, 9] (fun _ => B - 1) =
+      [5 ^ 3 % 12] ∧
+    Mpir.PowmCrt.powmEvenMemF 2 [7] [2] [3] 1 1 0 (toLimbs 1 (7 ^ 2 % 3)) 226 [1, 2, 3] [4, 5] (fun i => i) = [49, 0] := by
+  decide +kernel
 
 end Mpir.Mm1
